@@ -167,3 +167,15 @@ check("C19",
       "np.linspace on symbolic scalars modelled as the affine formula",
       "symbolic execution of the real Python code with z3 (symx), fork-on-value for indices, concrete replay",
       "DESIGN.md 4/C19")
+check("C13",
+      "Bounded symbolic execution of OptimizerBase.optimize/optimize_iteration/optimize_clamp/_get_sensitivity, "
+      "GridBase.update/quality/add_clamp/add_link, Junction.quality, ClampBase.update_params, LinkBase.update, "
+      "IterationDriver, Mesh/SketchOptimizer.backport on small quad sketches and box meshes with symbolic positions under "
+      "a demonic minimiser (arbitrary in-bounds probes, state left at the last probe), an arbitrary-gradient "
+      "approx_fprime (clamp order = solver-chosen permutation) and an uninterpreted cell quality that may report a "
+      "degenerate cell on a probe. z3 shows the quality, unmoved-vertices, clamp-position/bounds, link-relation, copy-back "
+      "and rollback obligations.",
+      "the minimisers are contracts (bounds honoured), not the numerical algorithms; quality uninterpreted (C14 covers what "
+      "it computes); 1 probe per minimisation in quick; clamp creation through the exact-root contract",
+      "symbolic execution of the real Python code with z3 (symx), demonic environment stubs, scripted replay",
+      "DESIGN.md 4/C13")
